@@ -232,6 +232,21 @@ pub fn gen_history(r: &mut Rng, c: &GenCfg, max_terms: usize, max_unions: usize)
         }
         fam.push("full-symmetry-pinned-users");
     }
+    // symmetry and redundancy asserted by one equation: h(x,y,z) = h(y,x,w) says that the third argument does not matter *and*
+    // that the first two may be exchanged; next to it the pure redundancy h(x,y,z) = h(x,y,w) (either order of the two unions
+    // has to give the same class: one slot less, two symmetries)
+    if r.chance(1, 8) && c.ns >= 4 && c.max_names >= 3 && c.ops.contains(&"h") {
+        let base = terms.len();
+        terms.extend([Tm::leaf("h", vec![0, 1, 2]), Tm::leaf("h", vec![1, 0, 3]), Tm::leaf("h", vec![0, 1, 3])]);
+        planned_unions.push((base, base + 1));
+        if r.chance(2, 3) {
+            planned_unions.push((base, base + 2));
+        }
+        if c.ops.contains(&"u") {
+            terms.push(Tm::node("u", vec![], vec![(vec![], Tm::leaf("h", vec![1, 0, 2]))]));
+        }
+        fam.push("symmetry-with-redundancy");
+    }
     while terms.len() < nterms {
         let roll = r.below(13);
         if roll < 5 || terms.is_empty() {
